@@ -377,16 +377,23 @@ fn valid_multi_file(t: &mut Tape) -> Built {
     let mut body = Vec::new();
     for (i, m) in mods.iter().take(n).enumerate() {
         let mut s = String::new();
-        // modules may import each other (later ones import earlier ones)
+        // modules may import each other: later ones import earlier ones, sometimes the first one imports
+        // the last one or main as well (cycles), sometimes two import the same third (diamonds)
         if i > 0 && t.chance(1, 3) {
             s.push_str(&format!("use {}\n", mods[i - 1]));
+        }
+        if i == 0 && t.chance(1, 5) {
+            s.push_str(&format!("use {} as back\n", if t.bool() { "main" } else { mods[n - 1] }));
+        }
+        if i == 2 && t.chance(1, 3) {
+            s.push_str("use other as also_other\n");
         }
         s.push_str(&format!("val{} :: {}\n", i, i + 10));
         s.push_str(&format!("fun{} :: fn x: int -> int do\n    ret x + val{}\nend\n", i, i));
         let nd = 1 + t.below(2);
         let (decls, _) = wide_valid(t, &format!("M{}", i), nd);
         s.push_str(&decls);
-        if i > 0 && s.starts_with("use ") {
+        if i > 0 && s.starts_with(&format!("use {}\n", mods[i - 1])) {
             s.push_str(&format!("via{} :: fn -> int do\n    ret {}.fun{}(1)\nend\n", i, mods[i - 1], i - 1));
         }
         list.push((m, s));
@@ -460,6 +467,22 @@ fn similar_names(t: &mut Tape) -> Built {
     for i in 0..t.below(4) {
         s.push_str(&format!("{}{}x :: {}\n", stem, letters[i], i));
     }
+    // candidates that enter the namespace through imports and namespace aliases (same edit distance)
+    let imported = t.chance(1, 3);
+    let mut cands = String::new();
+    if imported {
+        let extra = ["m", "n", "o", "p"];
+        let n_imp = 1 + t.below(3);
+        let names: Vec<String> = extra.iter().take(n_imp).map(|l| format!("{}{}", stem, l)).collect();
+        for (i, n) in names.iter().enumerate() {
+            cands.push_str(&format!("{} :: {}\n", n, i + 100));
+        }
+        if t.bool() {
+            s = format!("from cands use ({})\n{}", names.join(", "), s);
+        } else {
+            s = format!("from cands use ({} as {}y)\nuse cands as {}w\n{}", names[0], stem, stem, s);
+        }
+    }
     // type-level candidates
     let type_level = t.chance(1, 3);
     if type_level {
@@ -489,12 +512,13 @@ fn similar_names(t: &mut Tape) -> Built {
             }
         }
     }
-    if t.bool() {
+    if t.bool() || imported {
         s.push_str(START);
     } else {
         s = format!("{}{}", START, s);
     }
-    Built { project: single(s), class: "similar-name-candidates", planted }
+    let project = if imported { files(vec![("main", s), ("cands", cands)]) } else { single(s) };
+    Built { project, class: "similar-name-candidates", planted }
 }
 
 // ------------------------------------------------------------------------------------------------
@@ -640,6 +664,10 @@ fn type_errors(t: &mut Tape) -> Built {
 }
 
 const SYNTAX_ERR_LINES: &[&str] = &[
+    "p :: ) q :: ) r :: )\n",
+    "x :: :: 1\nx :: :: 1\n",
+    "use\n",
+    "use other other\n",
     "x :: :: 1\n",
     "y := )\n",
     "Bl :: blob { a int }\n",
